@@ -1,6 +1,9 @@
 # Registered checks: property -> engines and budgets per tier.
 # batches x runs = simulated cases of the plain binary; race_* = the same engine in the -race binary.
 CHECKS = {
+    "C18": dict(engines=["c18"], level="exploration", gotree_bin=True,
+                quick=dict(batches=16, runs=120, timeout=900),
+                thorough=dict(batches=64, runs=2500, timeout=3000)),
     "C17": dict(engines=["c17"], level="exploration",
                 quick=dict(batches=16, runs=150, timeout=900),
                 thorough=dict(batches=64, runs=3000, timeout=3000)),
@@ -57,6 +60,17 @@ HIST_NOTE = ("Quantifier 'histories': the system under simulation is the long-li
              "shrinks. Histories of bounded length over trees of bounded size are sampled, not enumerated. A step that fails (error, panic, os.Exit) poisons the state and is "
              "only counted: the statement speaks of operations that report success.")
 TEXTS = {
+    "C18": dict(
+        level_text="Seeded simulation over the product's own nondeterminism seams: every string/integer-keyed map range of gotree iterates in a seeded permutation, the wall clock is "
+                   "simulated, goroutines run under the deterministic scheduler, and the process boundary is crossed with the instrumented binary. 76 command templates "
+                   "(generators, randomised edits, sampling, pruning, renaming, format conversion, consensus, supports, comparisons, acr/asr incl. protein alignments with X) "
+                   "run in-process through cmd.RootCmd with --seed fixed under seam settings A, B and A again, and as separate processes under both map seeds; all outputs "
+                   "must be byte-identical (per-tree records of threaded commands after sorting lines, documented date lines masked). Sampling: evidence, not proof.",
+        design_ref="§3.4, §4 C18",
+        level_note="Map ranges inside dependencies (goalign, cobra) are not behind the seam and keep Go's native randomisation (which is itself varied by the cross-process runs). "
+                   "Flags are reset to their defaults before every in-process execution. Memory addresses are varied only by process restarts. go1.26.8 runtime with go1.21 "
+                   "GODEBUG defaults so that rand.Seed still seeds.",
+        technique="deterministic simulation: seeded control of map-iteration order, clock, goroutine schedule and process boundary; differential comparison of outputs across seam settings"),
     "C15": dict(
         level_text="Seeded two-party histories: a copy made by Clone() or SubTree(n), then 1..20 editing steps each applied to the original or to the copy; at copy time the clone's "
                    "text (with comments) and API snapshot must equal the original's; after every step, successful or not, text and snapshot of the untouched party must be "
